@@ -14,8 +14,8 @@
                    make_policy                               makePolicy
                    list_policies + sys.exit(GOOD)            listOps / listStatus
 
-  Python -> Lean: text is `List Char`; `"%s" % int` is `Target.showInt`; `int(str)` is `Target.pyInt` (ASCII digits, PEP 515
-  underscores, sign, the white space `int()` skips, the 4300-digit limit); `list.sort()` on `str` is `Output.sortStr`;
+  Python -> Lean: text is `List Char`; `"%s" % int` / `str(int)` is `Target.showInt`, `int(str)` is `Target.pyInt` (version numbers
+  of built-in policies); `list.sort()` on `str` is `Output.sortStr`;
   `json.dumps(…, sort_keys=True, indent=None | 4)` is written out for the one document shape `evaluate_policy` builds
   (keys in sorted order, `ensure_ascii`, separators `", "` / `": "`, or `","` + newline + 4·depth blanks when indented, `[]` for an
   empty list); exceptions are data.  `Utils.is_windows()` is the field `Conf.windows`.  Core Lean only.
@@ -31,14 +31,11 @@ open Output (Cfg Op Meth)
 
 /-! ### `Policy._normalize_error_field` / `_get_errors` -/
 
-/-- `_normalize_error_field`, as it is printed with `%s`: a one-element list whose element `int()` accepts prints as that
-    integer (`int('007')` -> `7`), any other one-element list as the element, every other list joined with `", "` -/
+/-- `_normalize_error_field`: a one-element list is shown as its element, exactly as given (no `int()` since the D39 repair),
+    every other list joined with `", "` -/
 def normField (l : List Str) : Str :=
   match l with
-  | [x] =>
-    match Target.pyInt x with
-    | some i => Target.showInt i
-    | none => x
+  | [x] => x
   | _ => Text.join (s ", ") l
 
 def semi (sub : Bool) : Str := if sub then s "; subset and/or reordering allowed" else s "; exact match"
